@@ -14,6 +14,7 @@ META = {
     'exhaustive': True,
     'not_decided': ["equality of whole program variants' results (a metamorphic relation over runs)"],
 }
+META['explanation'] += ' R10.10 the jump placeholder is only written, never compared: moving code by a few bytes cannot turn a legal jump target into a refused one.'
 
 
 def run(ctx, rep):
